@@ -51,6 +51,7 @@ SetPayloadFnVerdict(e) ==
 CreateVerdict(e) ==
   LET p == e.pkt IN
   IF Len(p) # 188 THEN "harness-bad-length"
+  ELSE IF ~e.opts_list_same THEN "create-wrote-into-the-callers-option-list"
   ELSE IF Get("sync", p) # 71 THEN "create-sync"
   ELSE IF Get("pid", p) # e.pid THEN "create-pid"
   ELSE IF e.kind # "Create" /\ Get("cc", p) # e.cc THEN "create-cc"
